@@ -83,6 +83,9 @@ class VerifyEnv:
         return False
 
     def truth_hook(self, ex, st, ref, o):
+        cm = self.class_models.get(o.cls)
+        if cm is not None and hasattr(cm, "truth"):
+            return cm.truth(ex, st, ref, o)
         return None
 
     def contains_hook(self, ex, st, ref, o, item):
@@ -139,6 +142,8 @@ class VerifyEnv:
         shp = model[attr]
         if callable(shp) and not isinstance(shp, Shape):
             return shp(ex, st, ref)
+        if isinstance(shp, str):
+            return StubV(shp, ref)
         arrs = []
         for k, srt in enumerate(shp.sorts):
             key = (ref.cls, "%s#%d" % (attr, k))
